@@ -101,6 +101,8 @@ def auth_nontrivial(e):
         return (a.get("cell"), a.get("variant"), a.get("who"), str(a.get("subst")), a.get("mode"), e.get("res"))
     if a.get("op") == "config_group":
         return ("config_group", str(sorted((k, v) for k, v in a.items() if k.endswith("admin"))), e.get("res"))
+    if a.get("op") in ("transfer_account", "init_account") and ("pda" in a or "signer" in a):
+        return (a.get("op"), str(a.get("pda")), a.get("signer"), a.get("cpi_via"), a.get("cpi"), e.get("res"), e.get("err"))
     if "oracle_sub" in a or "oracle_sub_slots" in a:
         return (a.get("op"), str(a.get("oracle_sub")), str(a.get("oracle_sub_slots")), e.get("res"))
     return None
@@ -119,6 +121,12 @@ ORACLE_MODELS = [
 CONFIG_MODELS = [
     {"name": "config", "module": "Config.tla", "cfg": {"quick": "MC_ConfigQuick.cfg", "thorough": "MC_ConfigThorough.cfg"},
      "setup": "setups/config.json", "init_from_setup": True, "timeout": {"quick": 900, "thorough": 7200}},
+]
+
+
+PDA_MODELS = [
+    {"name": "pda", "module": "Pda.tla", "cfg": {"quick": "MC_PdaQuick.cfg", "thorough": "MC_PdaThorough.cfg"},
+     "setup": "setups/pda.json", "init_from_setup": True, "timeout": {"quick": 900, "thorough": 7200}},
 ]
 
 
@@ -162,7 +170,7 @@ PROPS = {
     "C19": risk_prop2(["collect_fees", "withdraw_fees", "withdraw_fees_perm", "withdraw_insurance", "settle_emissions", "withdraw_emissions",
                        "withdraw_emissions_perm", "deposit", "withdraw"], ADMIN_DRIVERS + LEDGER_DRIVERS, models=LEDGER_MODELS, minnt=200),
     "C08": {
-        "models": AUTH_MODELS,
+        "models": AUTH_MODELS + PDA_MODELS,
         "drivers": STAKED_DRIVERS + RISK_DRIVERS + LIQ_DRIVERS + KAMINO_DRIVERS,
         "nontrivial": auth_nontrivial,
         "rule": "each matrix cell (instruction x variant: unmodified, signer identity, missing signature, slot x foreign object; normal and frozen account; every role-gated instruction x identity after every re-assignment of a group role) executed through marginfi::entry is one evaluation, so is every role assignment and every instruction executed with a substituted price account; all are non-trivial; distinct by (cell, variant, identity, substitution, mode, result)",
@@ -179,7 +187,7 @@ PROPS = {
     "C02": dict(ledger_prop(extra_ops=["purge", "transfer_account", "kamino_deposit", "kamino_withdraw", "drift_deposit", "drift_withdraw", "solend_deposit", "solend_withdraw"]), drivers=LEDGER_DRIVERS + LIQ_DRIVERS + ADMIN_DRIVERS + KAMINO_DRIVERS, models=LEDGER_MODELS + VENUE_MODELS),
     "C03": dict(ledger_prop(extra_ops=["kamino_deposit", "kamino_withdraw", "drift_deposit", "drift_withdraw", "solend_deposit", "solend_withdraw"]), drivers=LEDGER_DRIVERS + KAMINO_DRIVERS, models=LEDGER_MODELS + VENUE_MODELS),
     "C06": dict(ledger_prop(), drivers=LEDGER_DRIVERS + [{"name": "caps", "args": {"quick": [200], "thorough": [4000]}}]),
-    "C16": dict(ledger_prop(), drivers=LEDGER_DRIVERS + [{"name": "struct", "args": {"quick": [60], "thorough": [2000]}}] + LIQ_DRIVERS + STAKED_DRIVERS + ADMIN_DRIVERS + KAMINO_DRIVERS),
+    "C16": dict(ledger_prop(), models=LEDGER_MODELS + PDA_MODELS, drivers=LEDGER_DRIVERS + [{"name": "struct", "args": {"quick": [60], "thorough": [2000]}}] + LIQ_DRIVERS + STAKED_DRIVERS + ADMIN_DRIVERS + KAMINO_DRIVERS),
     "C17": dict(ledger_prop(), drivers=LEDGER_DRIVERS + [{"name": "caps", "args": {"quick": [300], "thorough": [8000]}}]),
     "C15": {
         "models": [
